@@ -75,7 +75,7 @@ func C03(r *core.Report) {
 		"dominated by a comparison between the requested key and a value derived from the fetched object (R1), whose failing branch returns an error (wrapping ErrNotFound for slot/signature/address keys, so that handlers answer not-found). " +
 		"Wrappers, probes and consumers are discovered from the call graph starting at the functions that call (*DB).Lookup; sinks that do not return an object must be listed in the exemption table. " +
 		"R2: every PutRawCarObject(c, data) takes c and data from the same util.ReadNode call or stores a fetch made for that very CID. " +
-		"Not decided: that absent keys actually collide, the quality of the sig-exists pre-filter."
+		"R5 the address-index readers are immutable on their lookup paths: no method that takes the address, nor anything it reaches in the package, stores into a field of the reader (a remembered location would be served for another, absent address). Not decided: that absent keys actually collide, the quality of the sig-exists pre-filter."
 	r.Assumptions = []string{"taint (derived-from) is computed flow-insensitively per function; a comparison counts as the re-check when it mentions the key parameter (or a copy/address of it) and a lookup-derived value",
 		"the CID stored in a CAR section identifies the section's bytes (content addressing is trusted)"}
 	p := r.Prog
@@ -112,6 +112,7 @@ func C03(r *core.Report) {
 		r.OK("C03.R0", "source:"+f.Key, posP(r, f.Pos()), "cache of unverified lossy lookup results")
 	}
 	r.Floor("C03.R0", 7)
+	readersImmutableAfterConstruction(r, "C03.R5")
 	nWrappers, nConsumers, nProbes := 0, 0, 0
 	okeyUses := map[string]int{}
 	for i := 0; i < len(roles); i++ {
